@@ -93,9 +93,20 @@ def gen_case(rng):
     # keep magnitudes small (exact rationals in TLC are 32-bit)
     for c in f['cols']:
         c['vals'] = [['i', max(-3, min(3, v[1]))] if v[0] == 'i' else v for v in c['vals']]
+    narrow = rng.random()
+    if narrow < 0.2:
+        # one dtype for the whole row and several columns: all-Boolean, or 8-bit integers near their bounds, where a partial result written
+        # back into the row dtype (Boolean / int8) loses the count or wraps
+        f = C.rand_frame(rng, 4, 5 if narrow < 0.1 else 4, kinds='b' if narrow < 0.1 else 'i', min_rows=1, min_cols=2, na=0.0, index_kind='str', columns_kind='str', name=False)
+        if narrow >= 0.1:
+            for c in f['cols']:
+                c['dt'] = ['i', 8]
+                c['vals'] = [['i', rng.choice([100, 120, 127, -128, -100, 3, 60])] for _ in c['vals']]
     r = rng.random()
     if r < 0.75:
         fn = rng.choice(FNS)
+        if narrow < 0.2 and rng.random() < 0.5:
+            fn = 'sum'
         cs = {'op': 'f_reduce', 'f': f, 'fn': 'var' if fn == 'std' else fn, 'axis': rng.choice([0, 1]), 'skipna': rng.random() < 0.6, 'ddof': rng.choice([0, 1]) if fn in ('var', 'std') else 0}
         if fn == 'std':
             cs['via'] = 'std'
@@ -140,4 +151,4 @@ def main(ctx):
             ctx.violation('V', 'recorded reduction violates ' + rej[ev['id']][0], case={'cs': ev['cs'], 'layout': meta[ev['id']], 'per': ev['per']},
                           actual=ev['res'], clause=rej[ev['id']][0], expected=rej[ev['id']][1])
     ctx.sample({'leg': 'V', 'event': events[0]})
-    return ctx.finish(rule='M: every 2x2 (thorough also 2x3) Frame over {0,1,2,1/2,NaN} x 9 functions x axis x skipna x ddof; R: each on every block layout (quick: 30%% sample); V: seeded random frames (int/float/bool/object/str/datetime mixes, random layout) x reductions / cumulative / arg functions, each recorded with the per-column or per-row Series results of the real code')
+    return ctx.finish(rule='M: every 2x2 (thorough also 2x3) Frame over {0,1,2,1/2,NaN} x 9 functions x axis x skipna x ddof; R: each on every block layout (quick: 30%% sample); V: seeded random frames (int/float/bool/object/str/datetime mixes, a fifth of them all-Boolean or all-int8 near the bounds, random layout) x reductions / cumulative / arg functions, each recorded with the per-column or per-row Series results of the real code')
